@@ -394,3 +394,9 @@ theorem land_assoc (x y z : Int) : land (land x y) z = land x (land y z) := by
   apply tb_ext; intro i; simp only [tb_land, Bool.and_assoc]
 
 end Py
+
+namespace Py
+/-- `x | (v & M)` — the idiom `p |= value & FLAG`. -/
+theorem lor_land (x v M : Int) : lor x (land v M) = x + land v M - land (land x v) M := by
+  rw [lor_eq, land_assoc]
+end Py
